@@ -39,7 +39,21 @@ def enumerate_vectors(ins, alphabets=None):
 
 def run_comb(desc, build, ref, prop, alphabets=None, max_viol=3, use_clk=False):
     try:
-        hw, ins, outs = build(desc)
+        if desc.get('early'):
+            # the simulator is obtained once on the still empty system, the design is added, the simulator is obtained again
+            orig = py4hw.HWSystem
+
+            class EarlySystem(orig):
+                def __init__(self, *a, **k):
+                    super().__init__(*a, **k)
+                    self.getSimulator()
+            py4hw.HWSystem = EarlySystem
+            try:
+                hw, ins, outs = build(desc)
+            finally:
+                py4hw.HWSystem = orig
+        else:
+            hw, ins, outs = build(desc)
     except (AssertionError, Exception) as e:
         core.reset_prepared()
         return {'constructor_rejected': 1, 'configs': 1, 'evaluations': 0, 'distinct_nontrivial': 0,
@@ -97,7 +111,20 @@ def run_comb(desc, build, ref, prop, alphabets=None, max_viol=3, use_clk=False):
 
 def replay_comb(v, build, ref):
     d = v['shard']
-    hw, ins, outs = build(d)
+    if d.get('early'):
+        orig = py4hw.HWSystem
+
+        class EarlySystem(orig):
+            def __init__(self, *a, **k):
+                super().__init__(*a, **k)
+                self.getSimulator()
+        py4hw.HWSystem = EarlySystem
+        try:
+            hw, ins, outs = build(d)
+        finally:
+            py4hw.HWSystem = orig
+    else:
+        hw, ins, outs = build(d)
     sim = hw.getSimulator()
     for x in v['trace']:
         xd = dict(zip([n for n, _ in ins], x))
